@@ -207,7 +207,10 @@ func saveState(lastMessages map[string]interface{}) {
 		log.Println("Could not remove backup file ", bakname, " even though it exists: ", err)
 		return
 	}
-	err = os.Rename(mainname, bakname)
+	// Make the backup a hard link to the current file instead of renaming it away: the standard config name
+	// then refers to a complete file at every instant (the rename below replaces it atomically), even if
+	// dastard is killed in the middle of a save.
+	err = os.Link(mainname, bakname)
 	if err != nil && !os.IsNotExist(err) {
 		log.Println("Could not save backup file: ", err)
 		return
